@@ -33,8 +33,8 @@ IX = {c: i for i, c in enumerate(C)}
 TAG = "subtomo_mean"
 
 FIELDS = {
-    "tomo_id": st.integers(1, 3).map(float),
-    "object_id": st.integers(1, 5).map(float),
+    "tomo_id": st.one_of(st.integers(1, 3), st.integers(1, 3), st.sampled_from([1, 2, 11, 12, 21, 111])).map(float),  # also numbers of two and three digits
+    "object_id": st.one_of(st.integers(1, 5), st.integers(1, 5), st.sampled_from([1, 2, 3, 11, 12, 13, 21, 111])).map(float),
     "class": st.integers(1, 3).map(float),
     "score": st.one_of(st.sampled_from([0.1, 0.3, 0.5, 0.9]), gen.finite(-1, 1)),
     "geom1": st.one_of(gen.small_int, st.just(float("nan"))),
@@ -114,6 +114,9 @@ def _bulk(rng, n, first_id):
     a[:, IX["subtomo_id"]] = rng.permutation(np.arange(n) * 2 + first_id + 1)
     a[:, IX["tomo_id"]] = rng.integers(1, 4, n)
     a[:, IX["object_id"]] = rng.integers(1, 6, n)
+    if first_id % 3 == 0:  # tomogram and object numbers of one to three digits
+        a[:, IX["tomo_id"]] = np.array([1, 2, 11, 12, 21, 111])[rng.integers(0, 6, n)]
+        a[:, IX["object_id"]] = np.array([1, 2, 3, 11, 12, 13, 21, 111])[rng.integers(0, 8, n)]
     a[:, IX["class"]] = rng.integers(1, 4, n)
     a[:, IX["geom2"]] = rng.choice([1.0, 2.0, 3.0], n)
     a[:, IX["geom3"]] = rng.integers(-5, 5, n)
